@@ -30,6 +30,12 @@ func MustFindWorkspaceRoot() string {
 		fmt.Printf("%s failed to get current working directory: %v\n", color.RedString("FATAL:"), err)
 		os.Exit(1)
 	}
+	// os.Getwd reports $PWD, i.e. the path the user came through. The workspace directory
+	// below the grog root (cache, workspace lock) is derived from the workspace path, so a
+	// workspace entered through a symlink must resolve to the same path as entered directly.
+	if resolved, err := filepath.EvalSymlinks(cwd); err == nil {
+		cwd = resolved
+	}
 
 	for {
 		configPath := filepath.Join(cwd, "grog.toml")
